@@ -606,7 +606,7 @@ def OutQOk (res : Res (Option Token)) (cap : Nat) (pos : Nat) (bom : Bom) (d : B
   | none => True
 
 def OutQ (res : Res (Option Token)) (cap : Nat) (pos : Nat) (bom : Bom) (d : Bytes) : Prop :=
-  FullAlt cap d res ∨ OutQOk res cap pos bom d
+  FullAlt (Carry (pos == 0) bom d) cap d res ∨ OutQOk res cap pos bom d
 
 theorem Out.toQ {res : Res (Option Token)} {cap pos : Nat} {bom : Bom} {d : Bytes} (h : Out res cap pos bom d) :
     OutQ res cap pos bom d := by
@@ -626,10 +626,14 @@ theorem Out.toQ {res : Res (Option Token)} {cap pos : Nat} {bom : Bom} {d : Byte
 /-- one swallowed space in front does not matter -/
 theorem OutQ_space {res : Res (Option Token)} {cap pos : Nat} {bom : Bom} {tl : Bytes}
     (h : OutQ res cap (pos + 1) bom tl) : OutQ res cap pos bom (32 :: tl) := by
-  rcases h with h | h
-  · left; exact h.mono (by simp)
-  right
   have hs : Skips (pos == 0) [32] 0 bom bom := .blank (by decide) (.nil _ _)
+  rcases h with h | h
+  · left
+    refine h.mono (by simp) ?_
+    intro k hk
+    have := Carry_skip (pos := pos) (pre := [32]) (y := tl) hs k (by simpa using hk)
+    simpa using this
+  right
   have hp : (pos + 1 == 0) = false := by simp
   have hsp := spec_skip hs (by simp) tl
   unfold OutQOk at h ⊢
